@@ -367,6 +367,11 @@ def gen_inputs(tier, rnd):
             if rnd.random() < 0.12:
                 k += 1
                 yield {"kind": "cid", "rows": bad, "seed": k, "what": "defect"}
+                if at is not None and at >= 1 and rnd.random() < 0.6:
+                    # the same with rows without content before the offending row: every storage names the same row
+                    k += 1
+                    fill = [[], [""], ["", ""]][k % 3]
+                    yield {"kind": "cid", "rows": bad[:1] + [fill, []] + bad[1:], "seed": k, "what": "defect+empty-rows"}
     # every rule of every type against its whole cell pool, one column (systematic), then random multi-column tables
     for ftype, (rules, cells) in DATA_TYPES.items():
         for rule in rules:
